@@ -24,6 +24,13 @@ Bounded exhaustive exploration of calc_rdm_unbalanced / calc_one_similarity:
   scale     the labelings (n <= 4) and balanced designs with the measurements multiplied by 1e-5 and 1e4,
             with condition / fold descriptors that are six-digit ints (100000+k) and floats
             1696300000.0+0.5k; judged by the same oracles with tolerances relative to the data scale
+  list      input forms crossed with the options: the dataset argument as single object / list of 1 / list or
+            tuple of 2-3 datasets (every ordered pair of partitions of <= 4 observations into the same K
+            conditions: different repetition counts, row orders, label orders, fold codings) x noise as
+            None / one shared 2-D matrix / list / tuple / 3-D array of per-dataset matrices x cv_descriptor
+            None / given x descriptor None / given x methods x weightings (non-default poisson prior): the
+            RDM of every dataset must be the one the single-dataset call with the same options returns, in
+            the first dataset's condition order, carrying that dataset's descriptors
   oob_probe the configuration class 'precision + missing channel' is executed in a CHILD process
             only (the compiled kernel reads past a heap buffer there - known finding); everywhere
             else that class is skipped and counted under `not_explored_because_known`
@@ -121,6 +128,11 @@ BOUNDS = {
                            '(complete data; one NaN cell for n<=4, without the two precision calls)',
               'scales': 'n in 1..4, every partition, P=3: data x 1e-5 / x 1e4, labels and folds 100000+k and '
                         '1696300000.0+0.5k (alone and with x 1e4); 5 masks; all method configurations; 5 balanced designs',
+              'input_forms': 'K in {2,3} conditions, member datasets = every partition of K..4 observations into K '
+                             'conditions: every single dataset (as object, list of 1, tuple), every ordered pair, one '
+                             'triple per partition; 6 (container, noise form) combinations x cv_descriptor x '
+                             'descriptor (None when n_obs agree) x both weightings; all 6 methods on every 4th '
+                             'structure, 2 rotating methods elsewhere',
               'fills': 'generic float fill + integer fill (complete data)',
               'layout/dtype variants': 'F order on every third case (rotating through configurations and '
                                        'masks), int64 C/F + F on every integer-fill case'},
@@ -128,6 +140,7 @@ BOUNDS = {
                  'n_channel': '2, 3 (+4 for n<=4)',
                  'fold_partitions': 'n<=4 with all masks, n=5 with <=1 cell + whole',
                  'balanced': 'K,M in {2,3,4} (R=1), {2,3} (R=2); pairs of cells for <=9 rows',
+                 'input_forms': 'member datasets with up to 5 observations',
                  'sequences': 'n in 2..6 with and without a NaN cell', 'scales': 'n in 1..5, P in {2,3}, 6 combinations',
                  'fills': '3 float fills + integer fill; second poisson prior',
                  'layout/dtype variants': 'F order on every case of the labeling and balanced blocks'},
